@@ -279,9 +279,33 @@ func (a area) scenarioArmConsume(c *core.Ctx) {
 	fc.viewAll()
 	fc.compact(c.Rng(15), 0, "huge", 0)
 	fc.viewAll()
+	fc.reopen()
+	fc.viewAll()
 	fc.flush([]Entry{{Metric: 21, Block: C}}, true)
 	fc.flush([]Entry{{Metric: 23, Block: A}}, true)
 	fc.compact(c.Rng(15), 0, "huge", 0)
 	fc.viewAll()
+	fc.reopen()
+	fc.viewAll()
+	fc.flush([]Entry{{Metric: 22, Block: A}}, true)
+	fc.reopen() // a level-0 file that only the manifest knows
+	fc.viewAll()
+	fc.compact(c.Rng(15), 0, "huge", 0)
+	fc.viewAll()
 	c.NonTrivial()
+}
+
+// reopen: the store is closed and opened again between two steps of a history (protocol op `reopen`; the model's family
+// is unchanged by it). What a reader observes afterwards comes from the manifest and from table files opened afresh: an
+// install whose persisted edit differs from what was applied in memory (an input not recorded as deleted, an output
+// recorded under the wrong level), or an obsolete-file sweep that removed a live table, shows here and nowhere before.
+func (fc *famCase) reopen() {
+	fc.guard("reopen", func() string {
+		if err := fc.env.reopen(); err != nil {
+			fc.c.Fail("reopen-failed", "closing and reopening the store between two steps of a flush/compact history failed: "+err.Error())
+			return "err reopen"
+		}
+		return "ok " + fc.levelsText()
+	})
+	fc.c.Branch("fam/reopen")
 }
